@@ -94,6 +94,10 @@ def run(m, chk):
         body = [s for s in fi.node.body if not (isinstance(s, ast.Expr) and isinstance(s.value, ast.Constant))]
         ok = len(body) == 1 and isinstance(body[0], ast.Return) and any(c.callees for c in r.root(q).calls)
         chk.ob("DELEGATE", f"{q}: a single `return` delegating to the base operators", ok, loc=f"curves.py:{fi.node.lineno}", detail="" if ok else f"{q}: no longer a pure delegation", func=q, construct="not a delegation")
+    from .extra import interval_from_operand, poly_only
+
+    poly_only(r, chk, [B + n_ for n_ in CURVE_CURVE], floor=8)
+    interval_from_operand(r, chk, [B + n_ for n_ in CURVE_CURVE + ["__rtruediv__"]], floor=4)
     # 3. operand dependence per return site
     nsites = 0
     for name in ALL:
